@@ -97,6 +97,13 @@ CHECKS = {
         note="Kernel only. NOT decided: that nothing later overwrites uid/user pointers; that edge end points belong to the edge's own template (depends on resolve at the call site in the builders); add_process, add_LSC_instance; 'an accepted TA template has an initial location'; that every parse path goes through these constructors. Trusted: stand-in struct declarations for document.h (same member names), node-based list/deque stub (elements never move), arena frames/symbols (contracts of C07), type constructors over frames (arity = frame size at construction).",
         technique="sliced real constructors executed on symbolic well-formed documents in CBMC; representation-invariant postconditions as assume/call/assert harnesses; native replay through parse_XTA on valid and invalid models",
     ),
+    "C20": dict(
+        category="proof",
+        text="Kernel of the statement: the REAL element/attribute wrappers and template-graph functions of xmlwriter.cpp (startElement ... writeAttribute, label, name, writeStateAttributes, location, init, source, target, selfLoop, nail, transition, labels, taTempl) run against a ghost trace of the libxml2 writer calls, with strings as origin-tagged values. A location yields exactly one well-nested location element whose id is id<nr>, whose name element carries the location's name, with invariant and rate labels carrying the text of the expressions (trivial text '1' omitted, a '1 && ' prefix stripped) and the committed/urgent marker; init yields exactly one reference to the initial location; a transition yields one well-nested element whose source/target references are id<src.nr>/id<dst.nr> and whose guard, synchronisation, assignment and first-select labels carry the edge's texts; a template yields its locations, then init, then one transition per edge in edge order; non-TA templates are skipped. Also the REAL range/array/label/typedef chain of type_t::print_declaration, reached from XMLWriter::declaration(): it must not hit get_value()'s assertion on non-literal range bounds (found failing and fixed). Four obligations of the statement fail in recorded input classes and are reported as known findings C20-KF1..KF4 (probability labels, selects beyond the first, the controllable attribute, null dereference for edges through branchpoints).",
+        design_ref="DESIGN.md section 4, C20",
+        note="Kernel only. Strings are abstract values, so 'text of the expression' means 'the value expr.str() returned' (printer correctness is C03); well-formedness/escaping of the file is libxml2's (assumed). NOT under contract: declaration() beyond print_declaration's chain, system_instantiation(), queries, file handling. <= 2 locations/edges/selects per template.",
+        technique="sliced real writer functions executed against a ghost event trace of the libxml2 API in CBMC (assume/call/assert harnesses); known-finding classes excluded and re-checked to fail only there; native replay through write_XML_file",
+    ),
 }
 
 NOT_APPLICABLE = {
